@@ -1,7 +1,7 @@
 import LolHtml.Lemmas.ScanLexDefs
 /-!
 C06: one action, executed by the scanner and by the lexer from related machines, leads to related
-machines (labels updated by `absAct`).
+machines (labels updated by `phAct`).
 -/
 set_option linter.unusedSimpArgs false
 set_option linter.unusedVariables false
@@ -188,8 +188,8 @@ theorem scanAct_private (a : ActName) (ha : lexPrivate a = true) (c : Common) (s
     exact ⟨_, rfl, rfl, rfl, rfl⟩
 
 
-theorem absAct_private {a : ActName} {ab ab' : Ab} (ha : lexPrivate a = true) (h : absAct a ab = some ab') : ab' = ab := by
-  cases a <;> simp only [lexPrivate, Bool.false_eq_true] at ha <;> cases ab <;> simp [absAct] at h <;> exact h.symm
+theorem absAct_private {a : ActName} {ab ab' : Ab} (ha : lexPrivate a = true) (h : phAct a ab = some ab') : ab' = ab := by
+  cases a <;> simp only [lexPrivate, Bool.false_eq_true] at ha <;> cases ab <;> simp [phAct] at h <;> exact h.symm
 
 /-- the scanner's hint emission with the logging sink -/
 theorem scanEmitHint_log (c : Common) (s : ScanRegs) (x : Ctx L) (ts : Nat) (ie : Bool)
@@ -295,7 +295,7 @@ theorem tagKey_updTagHash (t : TagOutline) (ch : UInt8) :
   cases t <;> rfl
 
 /-- **one action on both machines.** -/
-theorem act_rel (a : ActName) (ab ab' : Ab) (habs : absAct a ab = some ab')
+theorem act_rel (a : ActName) (ab ab' : Ab) (habs : phAct a ab = some ab')
     (cs : Common) (s : ScanRegs) (xs : Ctx L) (cl : Common) (l : LexRegs) (xl : Ctx L)
     (h : Conc cfg ab cs s xs cl l xl)
     (hsig : silentAct a = true ∨ ((scanAct (envS tbl cfg) a inp cs s xs).2 = none ∧
@@ -308,34 +308,34 @@ theorem act_rel (a : ActName) (ab ab' : Ab) (habs : absAct a ab = some ab')
     exact Conc_congr_lex (Conc_congr_scan h s1 s2 s3) l1 l2 rfl rfl
   · cases a <;> simp only [lexPrivate, not_true_eq_false] at hpriv
     case setClosingQuoteToDouble =>
-      have : ab' = ab := by cases ab <;> simp [absAct] at habs <;> exact habs.symm
+      have : ab' = ab := by cases ab <;> simp [phAct] at habs <;> exact habs.symm
       subst this
       simp only [scanAct, lexAct, Rel_mk]
       exact Conc_common (fun c => { c with closingQuote := 34 }) (fun _ _ _ => rfl) h
     case setClosingQuoteToSingle =>
-      have : ab' = ab := by cases ab <;> simp [absAct] at habs <;> exact habs.symm
+      have : ab' = ab := by cases ab <;> simp [phAct] at habs <;> exact habs.symm
       subst this
       simp only [scanAct, lexAct, Rel_mk]
       exact Conc_common (fun c => { c with closingQuote := 39 }) (fun _ _ _ => rfl) h
     case enterCdata =>
-      have : ab' = ab := by cases ab <;> simp [absAct] at habs <;> exact habs.symm
+      have : ab' = ab := by cases ab <;> simp [phAct] at habs <;> exact habs.symm
       subst this
       simp only [scanAct, lexAct, Rel_mk]
       exact Conc_common (fun c => { c with lastTextType := .cdataSection }) (fun _ _ _ => rfl) h
     case leaveCdata =>
-      have : ab' = ab := by cases ab <;> simp [absAct] at habs <;> exact habs.symm
+      have : ab' = ab := by cases ab <;> simp [phAct] at habs <;> exact habs.symm
       subst this
       simp only [scanAct, lexAct, Rel_mk]
       exact Conc_common (fun c => { c with lastTextType := .data }) (fun _ _ _ => rfl) h
     case createStartTag =>
-      cases ab <;> simp [absAct] at habs
+      cases ab <;> simp [phAct] at habs
       subst habs
       obtain ⟨⟨a1, a2, a3, a4, a5, a6⟩, b⟩ := h
       simp only [scanAct, lexAct, Rel_mk]
       exact ⟨⟨a1, a2, a3, a4, a5, by simp [TagCorr, tagKey, b]⟩, b⟩
     case createEndTag =>
       have hra : RA cs s xs cl l xl ∧ ab' = .outEnd := by
-        cases ab <;> simp [absAct] at habs
+        cases ab <;> simp [phAct] at habs
         · exact ⟨h.1, habs.symm⟩
         · exact ⟨h, habs.symm⟩
       obtain ⟨⟨a1, a2, a3, a4, a5, a6⟩, rfl⟩ := hra
@@ -343,7 +343,7 @@ theorem act_rel (a : ActName) (ab ab' : Ab) (habs : absAct a ab = some ab')
       exact ⟨a1, a2, a3, a4, a5, by simp [TagCorr, tagKey]⟩
     case updateTagNameHash =>
       have hab : (ab = .outClean ∨ ab = .outEnd) ∧ ab' = ab := by
-        cases ab <;> simp [absAct] at habs <;> simp [habs]
+        cases ab <;> simp [phAct] at habs <;> simp [habs]
       obtain ⟨hab, rfl⟩ := hab
       have hra := Conc_out h hab
       have hpos : cs.pos = cl.pos := by rw [hra.c_eq]
@@ -381,7 +381,7 @@ theorem act_rel (a : ActName) (ab ab' : Ab) (habs : absAct a ab = some ab')
             exact ⟨a1, a2, a3, a4, a5, htc a6⟩
     case finishTagName =>
       have hab : (ab = .outClean ∨ ab = .outEnd) ∧ ab' = .inTag := by
-        cases ab <;> simp [absAct] at habs <;> simp [habs]
+        cases ab <;> simp [phAct] at habs <;> simp [habs]
       obtain ⟨hab, rfl⟩ := hab
       obtain ⟨a1, a2, a3, a4, a5, a6⟩ := Conc_out h hab
       simp only [silentAct, Bool.false_eq_true, false_or] at hsig
@@ -398,7 +398,7 @@ theorem act_rel (a : ActName) (ab ab' : Ab) (habs : absAct a ab = some ab')
         refine ⟨⟨tagKey t, S1, f, by simp [tagKey_setTagName], by rw [← a2, hkey]; exact hfb, hrl, rfl, rfl,
           by rw [a1, hkey], by rw [a3, hkey]⟩, rfl, a5⟩
     case emitTag =>
-      cases ab <;> simp [absAct] at habs
+      cases ab <;> simp [phAct] at habs
       subst habs
       obtain ⟨⟨key, S1, f, e1, e2, e3, e4, e5, e6, e7⟩, b1, b2⟩ := h
       cases hct : l.curTag with
